@@ -4,12 +4,22 @@ PROP = {
  'gen_modules': ['MetaConsts'],
  'streams': [
   {'name': 'setmeta', 'harness': 'umh_setmeta', 'driver': 'setmeta', 'timeout': {'quick': 300, 'thorough': 1500}},
+  {'name': 'setmeta_conc', 'harness': 'umh_setmeta_conc', 'driver': 'setmeta_conc',
+   'timeout': {'quick': 300, 'thorough': 1500}},
   {'name': 'setrepl', 'harness': 'umh_setrepl', 'driver': 'setrepl', 'timeout': {'quick': 300, 'thorough': 3000}},
  ],
  'assumptions': [
-  'set_meta: everything after the host check runs under MetaManager.lock, so SETCLUSTER is a sequential machine '
+  'set_meta, sequential model (UmModel/ProxyMeta): everything after the host check runs under MetaManager.lock '
   '(tools/extract_setmeta.py checks on every run that the epoch test and both stores sit inside the locked section, '
-  'that the host check precedes the lock, and reads the comparison operator and the store order from the source)',
+  'that the host check precedes the lock, and reads the comparison operator and the store order from the source); '
+  'this is no longer only assumed: UmModel/SetMetaConc models the mutex as a shared variable and C05_cluster_concurrent '
+  'proves every interleaving equivalent to the sequential machine in lock-acquisition order',
+  'set_meta, concurrent model: the steps of a caller are the code between two of the six scheduling points of hook H4 '
+  '(setmeta.check_hosts, .lock, .epoch_test, .map_store, .epoch_store, .unlock; the extractor checks their order and that '
+  'each sits directly in front of the access it names); a thread released at setmeta.lock while another thread is inside '
+  'the locked section would block in parking_lot::Mutex::lock and reach no point: that step does not exist in the model '
+  'and the scheduler never releases such a thread; meta_map (ArcSwap) and epoch (SeqCst atomic) are read lock-free by the '
+  'controller between steps',
   'update_replicators: the atomic steps of a caller are exactly the four shared accesses preceded by the scheduling '
   'points repl.updating_load / repl.updating_store / repl.read_lock / repl.write_lock (the extractor checks that these '
   'are the only accesses to updating_epoch and replicators and that each point directly precedes its access); the '
@@ -36,7 +46,8 @@ PROP = {
  ],
  'trusted': [
   'tools/extract_setmeta.py (reply strings, comparison operators, store order, scheduling-point names, shape checks)',
-  'the deterministic scheduler of harness/src/bin/umh_setrepl.rs (one OS thread runs between two scheduling points)',
+  'the deterministic schedulers of harness/src/bin/umh_setrepl.rs and umh_setmeta_conc.rs (one OS thread runs between '
+  'two scheduling points; lock ownership tracked as "released from setmeta.lock and not yet returned")',
   'routing fingerprint = hash of the replies to 7 probe keys + UMCTL LISTCLUSTER (two contents that route these probes '
   'identically are not distinguished)',
  ],
@@ -52,7 +63,12 @@ CHECK = {
          'help), OLD_EPOCH otherwise; the installed epoch never decreases along a non-forced suffix; the reported epoch '
          'and the routing snapshot are always those of one and the same accepted message; between the two stores a '
          'reader sees the new snapshot with the old epoch, never the reverse, and a reader that loads the epoch first '
-         '(handle_switch) never gets a snapshot older than that epoch. SETREPL, proved for all interleavings of any '
+         '(handle_switch) never gets a snapshot older than that epoch. Concurrent SETCLUSTER, proved without assuming the mutex '
+         '(it is a shared variable of the model): every interleaving of any number of callers over the six scheduling '
+         'points of set_meta is linearizable at lock acquisition - replies and final (epoch, snapshot) are those of the '
+         'sequential machine run over the callers in the order in which they took the lock, so every OK was forced or '
+         'strictly newer at its linearization point and the epoch never decreases without force, not even inside a '
+         'critical section. SETREPL, proved for all interleavings of any '
          'number of non-forced callers of update_replicators from any healthy state: the installed epoch never '
          'decreases, every OK was installed when its epoch exceeded the installed one, at quiescence the installed epoch '
          'is the maximum of the previous one and of all delivered epochs whose hosts match (so every OLD_EPOCH is '
@@ -60,7 +76,9 @@ CHECK = {
          'for all flags; the installed epoch and roles always come from one caller and, for a message listing no node in '
          'both roles, depend on that message alone. partial: with a forced message racing another caller the property '
          'is false of the code (finding F05a, proved witness + replay). Every run replays generated SETCLUSTER sequences '
-         '(replies, UMCTL GETEPOCH, routing probes) and SETREPL schedules (2-4 OS threads parked at the four scheduling '
+         '(replies, UMCTL GETEPOCH, routing probes), concurrent SETCLUSTER schedules (2-3 OS threads parked at the six '
+         'points of set_meta, all interleavings of two callers for lo<hi / hi<lo / equal / forced / foreign, thorough: of '
+         'three callers; epoch and routing observed after every step, also inside a critical section) and SETREPL schedules (2-4 OS threads parked at the four scheduling '
          'points; thorough: all interleavings of three callers for five epoch/force patterns, ~86k schedules) against the model line by line.',
  'note': 'Trusted: Lean kernel; extractor shape checks; the scheduler harness; fingerprint probes. Not covered: migration '
          'tasks inside SETCLUSTER, replicator task traffic.',
